@@ -3,6 +3,8 @@ import JPV.Impl.Serialize
 import JPV.Proofs.PathsCanon
 import JPV.Proofs.LexShape
 import JPV.Proofs.Strings
+import JPV.Proofs.Rq.Eval
+import JPV.Proofs.Rq.ParseExec
 namespace JPV.Proofs
 open JPV JPV.Impl
 
@@ -17,12 +19,28 @@ compiles to the singular query that walks that location (for every member name o
 scalar value; indices non-negative and within the environment's range). -/
 theorem path_compiles (env : Env) (loc : Loc)
     (h : ∀ k ∈ loc, ∀ i, k = .idx i → 0 ≤ i ∧ env.minIdx ≤ i ∧ i ≤ env.maxIdx) :
-    Impl.compile env (Impl.path loc) = .ok (queryOfLoc loc) := by sorry
+    Impl.compile env (Impl.path loc) = .ok (queryOfLoc loc) := by
+  have hq : queryOfLoc loc = Rq.qOfLoc loc := by
+    unfold queryOfLoc Rq.qOfLoc
+    apply List.map_congr_left
+    intro k _; cases k <;> rfl
+  obtain ⟨toks, htok, hkv⟩ := Rq.tokenize_path loc (fun k hk i hi => (h k hk i hi).1)
+  have hp := Rq.parse_path env loc h toks hkv
+  unfold Impl.compile
+  rw [htok, hq]
+  exact hp
 
 /-- … and evaluating it on a value in which the location exists returns exactly that one node. -/
 theorem requery (env : Env) (v val : Json) (loc : Loc) (hwf : v.WF)
     (hg : Json.getAt v loc = some val)
     (h : ∀ k ∈ loc, ∀ i, k = .idx i → 0 ≤ i) :
-    Impl.find env (queryOfLoc loc) v = .ok [⟨loc, val⟩] := by sorry
+    Impl.find env (queryOfLoc loc) v = .ok [⟨loc, val⟩] := by
+  have hq : queryOfLoc loc = Rq.qOfLoc loc := by
+    unfold queryOfLoc Rq.qOfLoc
+    apply List.map_congr_left
+    intro k _; cases k <;> rfl
+  have := Rq.evalSegs_loc env v loc [] v val hg h
+  simp only [List.nil_append] at this
+  simp [Impl.find, Impl.finditer, hq, this, Stream.toList]
 
 end JPV.Proofs
